@@ -602,4 +602,34 @@ def w_patches(ctx, rng, i):
                    sample={"cls": cls, "channels": C, "patch_shape": [ph, pw], "centres": ck, "order": order, "mode": mode} if i < 5 else None)
 
 
-WORKLOADS = [Workload("crop", w_crop, quick=3600, thorough=200000), Workload("patches", w_patches, quick=3150, thorough=160000)]
+def w_many_centres(ctx, rng, i):
+    """Dense sampling: a patch around every pixel of a grid (thousands of centres - several million sampling locations): every
+    patch, the last one as the first, is the block of pixels around its centre on either path."""
+    import menpo.image as mi
+    import menpo.shape as ms
+    from menpo.image.patches import extract_patches_by_sampling, extract_patches_with_slice
+    ph, pw = [(16, 16), (9, 15), (12, 20), (16, 16)][rng.integers(0, 4)]
+    H, W = int(rng.integers(90, 130)), int(rng.integers(90, 130))
+    C = int(rng.integers(1, 3))
+    px = rng.random((C, H, W))
+    # (every patch, moved by its offset too, stays inside the image: what lies outside is filled differently by the two calls below)
+    ys = np.arange(ph // 2 + 4, H - ph // 2 - 4, int(rng.integers(1, 3)))
+    xs = np.arange(pw // 2 + 4, W - pw // 2 - 4, int(rng.integers(1, 3)))
+    c = np.array([(y, x) for y in ys for x in xs], dtype=float)
+    c = c[: len(c) - int(rng.integers(0, 7))]                     # (not a round number)
+    offs = None if rng.random() < 0.6 else np.array([[0, 0], [int(rng.integers(-2, 3)), int(rng.integers(-2, 3))]])
+    a = extract_patches_with_slice(px, c, (ph, pw), offsets=offs)
+    b = extract_patches_by_sampling(px, c, (ph, pw), offsets=offs, order=0, mode="constant")
+    ctx.tap("path_equivalence_many_centres", "calls"); ctx.tap("path_equivalence_many_centres", "checked")
+    if a.shape != b.shape or not np.array_equal(a, b):
+        bad = np.nonzero((a != b).reshape(len(c), -1).any(axis=1))[0] if a.shape == b.shape else []
+        ctx.fail("slicing_path_and_resampling_path_disagree", cls="Image", mech="many_centres", n_centres=len(c), n_wrong=len(bad), first_wrong=int(bad[0]) if len(bad) else None)
+    im = mi.Image(px)
+    r = im.extract_patches(ms.PointCloud(c), patch_shape=(ph, pw), sample_offsets=offs, order=1, mode="nearest", as_single_array=True)
+    if np.asarray(r).shape != a.shape or _amax(np.asarray(r, dtype=float) - a) > 1e-9:
+        ctx.fail("patch_values_differ_from_nearest_neighbour_reference", cls="Image", mech="many_centres:order1_at_integer_centres")
+    ctx.count_case(("many_centres", ph, pw, offs is None, min(len(c) // 2000, 4)), nontrivial=True)
+
+
+WORKLOADS = [Workload("crop", w_crop, quick=3600, thorough=200000), Workload("patches", w_patches, quick=3150, thorough=160000),
+             Workload("many_centres", w_many_centres, quick=8, thorough=160)]
